@@ -1,4 +1,5 @@
 import Marwood.Datum
+import Marwood.Heap.Gc
 /-!
 # Native recursion depth of the reader, the datum ⇄ heap conversion, the marker, `equal?`,
 # the printer, the drop glue and the compiler
@@ -480,5 +481,190 @@ def bounded : Fn → Dir → Bool
 
 /-- the largest number of frames a bounded (function, direction) pair ever holds -/
 def loopBound : Nat := 6
+
+
+/-! ## The marker on heap GRAPHS (cluster `mark`): closures, environments, continuations, code
+
+`markIn` above reads a `Datum` as a tree-shaped heap graph. Closures, lexical environments, continuations and code
+objects are not data; the marker's recursion on them is modelled on the C03 heap model itself (`Heap/Cell.lean`,
+`Heap/Heap.lean`), following `heap.rs` frame by frame:
+
+* `Heap::mark(ptr)` is ONE frame that loops along `Pair` cdr and `Ptr` (`ptr = cdr`); it calls itself for the car
+  of a pair, for the code and the environment of a closure, for an `EnvironmentPointer`; it calls `mark_vcell` for
+  every slot of a `LexicalEnv` and every element of a `Vector`, `mark_lambda` for a code object,
+  `mark_continuation` for a continuation. A cell that is already marked, or an address outside the heap, ends the
+  frame.
+* `mark_vcell(v)` is one frame; it calls `mark` for every address `v` mentions (`Ptr`, `LexicalEnvPtr`,
+  `InstructionPointer`, `EnvironmentPointer`, both components of an inline `Pair` / `Closure`), itself for the
+  elements of an inline vector, `mark_lambda` / `mark_continuation` for inline code / continuations.
+* `mark_lambda` is one frame calling `mark_vcell` for every bytecode cell except jump operands (the repaired
+  marker), every formal and every environment-map symbol; `mark_continuation` is one frame calling `mark_vcell` for
+  every saved stack cell, then `mark(ip.0)`, `mark(ep)`.
+
+Every function returns the highest frame number reached and the marked addresses (most recent first). `fuel` bounds
+the number of calls. -/
+
+section graph
+open Marwood.Heap (VCell)
+
+mutual
+/-- `Heap::mark(p)` running as frame `d` -/
+def markAt (h : Heap.Heap) : Nat → List Nat → Nat → Nat → Nat × List Nat
+  | 0, ms, d, _ => (d, ms)
+  | f+1, ms, d, p =>
+    match h.cells[p]? with
+    | none => (d, ms)
+    | some c =>
+      if ms.contains p then (d, ms) else
+      match c with
+      | .pair a b =>
+        let r1 := markAt h f (p :: ms) (d + 1) a
+        let r2 := markAt h f r1.2 d b
+        (max r1.1 r2.1, r2.2)
+      | .ptr q => markAt h f (p :: ms) d q
+      | .cont stk l e => markContAt h f (p :: ms) (d + 1) stk l e
+      | .lambda bc args em => markLamAt h f (p :: ms) (d + 1) bc args em
+      | .closure l e =>
+        let r1 := markAt h f (p :: ms) (d + 1) l
+        let r2 := markAt h f r1.2 (d + 1) e
+        (max r1.1 r2.1, r2.2)
+      | .lexEnv ss => markVs h f (p :: ms) d ss
+      | .vector es => markVs h f (p :: ms) d es
+      | .envPtr q => markAt h f (p :: ms) (d + 1) q
+      | _ => (d, p :: ms)
+/-- `mark_vcell(v)` running as frame `d` -/
+def markV (h : Heap.Heap) : Nat → List Nat → Nat → VCell → Nat × List Nat
+  | 0, ms, d, _ => (d, ms)
+  | f+1, ms, d, v =>
+    match v with
+    | .ip l _ => markAt h f ms (d + 1) l
+    | .cont stk l e => markContAt h f ms (d + 1) stk l e
+    | .lambda bc args em => markLamAt h f ms (d + 1) bc args em
+    | .closure l e =>
+      let r1 := markAt h f ms (d + 1) l
+      let r2 := markAt h f r1.2 (d + 1) e
+      (max r1.1 r2.1, r2.2)
+    | .pair a b =>
+      let r1 := markAt h f ms (d + 1) a
+      let r2 := markAt h f r1.2 (d + 1) b
+      (max r1.1 r2.1, r2.2)
+    | .ptr q => markAt h f ms (d + 1) q
+    | .lexEnvPtr q _ => markAt h f ms (d + 1) q
+    | .vector es => markVs h f ms d es
+    | .envPtr q => markAt h f ms (d + 1) q
+    | _ => (d, ms)
+/-- a `for` loop running in frame `d` that calls `mark_vcell` (frame `d + 1`) for every cell of the list -/
+def markVs (h : Heap.Heap) : Nat → List Nat → Nat → List VCell → Nat × List Nat
+  | 0, ms, d, _ => (d, ms)
+  | _+1, ms, d, [] => (d, ms)
+  | f+1, ms, d, v :: vs =>
+    let r1 := markV h f ms (d + 1) v
+    let r2 := markVs h f r1.2 d vs
+    (max r1.1 r2.1, r2.2)
+/-- the bytecode loop of `mark_lambda` (frame `d`): the operand of `JMP` / `JNT` is skipped -/
+def markBc (h : Heap.Heap) : Nat → List Nat → Nat → Bool → List VCell → Nat × List Nat
+  | 0, ms, d, _, _ => (d, ms)
+  | _+1, ms, d, _, [] => (d, ms)
+  | f+1, ms, d, skip, v :: vs =>
+    if skip then markBc h f ms d false vs
+    else if v.isJumpOp then markBc h f ms d true vs
+    else
+      let r1 := markV h f ms (d + 1) v
+      let r2 := markBc h f r1.2 d false vs
+      (max r1.1 r2.1, r2.2)
+/-- `mark_lambda` running as frame `d` -/
+def markLamAt (h : Heap.Heap) : Nat → List Nat → Nat → List VCell → List VCell → List VCell → Nat × List Nat
+  | 0, ms, d, _, _, _ => (d, ms)
+  | f+1, ms, d, bc, args, em =>
+    let r1 := markBc h f ms d false bc
+    let r2 := markVs h f r1.2 d args
+    let r3 := markVs h f r2.2 d em
+    (max r1.1 (max r2.1 r3.1), r3.2)
+/-- `mark_continuation` running as frame `d` -/
+def markContAt (h : Heap.Heap) : Nat → List Nat → Nat → List VCell → Nat → Nat → Nat × List Nat
+  | 0, ms, d, _, _, _ => (d, ms)
+  | f+1, ms, d, stk, l, e =>
+    let r1 := markVs h f ms d stk
+    let r2 := markAt h f r1.2 (d + 1) l
+    let r3 := markAt h f r2.2 (d + 1) e
+    (max r1.1 (max r2.1 r3.1), r3.2)
+end
+
+/-- `mark(r)` for every root in turn (each call is frame 1; marks persist between the calls) -/
+def markRoots (h : Heap.Heap) (fuel : Nat) : List Nat → List Nat → Nat → Nat
+  | [], _, m => m
+  | r :: rs, ms, m =>
+    let x := markAt h fuel ms 1 r
+    markRoots h fuel rs x.2 (max m x.1)
+
+/-- inline cells of a heap cell (a bound on the calls one visit makes) -/
+def cellWidth : VCell → Nat
+  | .lexEnv ss => ss.length
+  | .vector es => es.length
+  | .lambda bc args em => bc.length + args.length + em.length
+  | .cont stk _ _ => stk.length
+  | _ => 0
+
+/-- fuel that suffices for heaps whose inline cells are flat (every cell visited once, a bounded number of calls per
+    cell and per inline cell) -/
+def markGraphFuel (h : Heap.Heap) : Nat :=
+  8 * h.cells.size + 4 * (h.cells.toList.map cellWidth).sum + 8
+
+/-- **native depth of the marker on a heap graph**: the highest number of live frames of the cluster `mark`
+    (`mark`, `mark_vcell`, `mark_lambda`, `mark_continuation`) while the roots are marked in order -/
+def markDepthHeap (h : Heap.Heap) (roots : List Nat) : Nat := markRoots h (markGraphFuel h) roots [] 0
+
+/-! ### the two chain families, built through the heap API -/
+
+/-- `put` of a cell that is not a `Ptr`: the new heap and the address (`(h, 0)` if `put` fails) -/
+def putAt (h : Heap.Heap) (c : VCell) : Heap.Heap × Nat :=
+  match h.put c with
+  | .ok (h', .ptr p) => (h', p)
+  | _ => (h, 0)
+
+/-- a heap of one chunk of `cap` cells holding the symbol `acc` (address 0) and the code of `(lambda () acc)`
+    (address 1: no address in its bytecode, one environment-map entry) -/
+def chainBase (cap : Nat) : Heap.Heap :=
+  match Heap.Heap.new cap with
+  | .ok h0 =>
+    let r1 := putAt h0 (.symbol "acc".toList)
+    (putAt r1.1 (.lambda [.opcode .enter, .opcode .mov, .atom .lexSlot, .atom .acc, .opcode .ret] [] [.ptr r1.2])).1
+  | .error _ => default
+
+/-- one more level of the closure chain around the value `prev`: the activation environment of `wrap` holding
+    `prev`, the closure's environment pointing into it (`LexicalEnvPtr`), the closure -/
+def closureLevel (x : Heap.Heap × VCell) : Heap.Heap × VCell :=
+  let r1 := putAt x.1 (.lexEnv [x.2])
+  let r2 := putAt r1.1 (.lexEnv [.lexEnvPtr r1.2 0])
+  let r3 := putAt r2.1 (.closure 1 r2.2)
+  (r3.1, .ptr r3.2)
+
+def closureLevels (cap : Nat) : Nat → Heap.Heap × VCell
+  | 0 => (chainBase cap, .atom .number)
+  | k+1 => closureLevel (closureLevels cap k)
+
+/-- **closure chain**: what `(define (wrap acc) (lambda () acc))` applied `n` times to `0` leaves in the heap —
+    closure → environment → activation environment → closure → … -/
+def closureChain (n : Nat) : Heap.Heap := (closureLevels (4 * (n + 1)) n).1
+
+/-- the address of the outermost closure -/
+def closureRoot (n : Nat) : Nat := 3 * n + 1
+
+/-- one more level of the continuation chain: a continuation whose saved stack holds the previous one and whose
+    `ip.0` is the code at address 1 (`ep`: a cell outside the chain, address 0) -/
+def contLevel (x : Heap.Heap × VCell) : Heap.Heap × VCell :=
+  let r := putAt x.1 (.cont [x.2] 1 0)
+  (r.1, .ptr r.2)
+
+def contLevels (cap : Nat) : Nat → Heap.Heap × VCell
+  | 0 => (chainBase cap, .atom .number)
+  | k+1 => contLevel (contLevels cap k)
+
+/-- **continuation chain**: `k₁` captured while `k₀` is on the stack, … -/
+def contChain (n : Nat) : Heap.Heap := (contLevels (4 * (n + 1)) n).1
+
+def contRoot (n : Nat) : Nat := n + 1
+
+end graph
 
 end Marwood.Depth
